@@ -22,7 +22,7 @@ func main() {
 		chk := vcommon.NewCheck("C15", "exploration")
 		runC15(chk, thorough)
 		chk.Set("exhaustive", chk.Violations() == 0)
-		chk.Set("rule", "all EC block trees over <=6 (thorough 7) epochs (null rounds, one fork at every point/length<=3, head on main/fork/early, base = bootstrap or any tipset via a stored certificate) x head-lookback {0,1,4} x proposal length {1,2,5,128} x clock {stale,fresh}, plus 300-epoch linear chains; all honest certificate histories (look-back {2,3,5}, initial {0,7}, 0..8 certificates, 0-2 tipsets each) with every instance's committee; distinct_nontrivial counts distinct (proposal length, descends) classes and committee queries")
+		chk.Set("rule", "all EC block trees over <=6 (thorough 7) epochs (null rounds, one fork at every point/length<=3, head on main/fork/early, base = bootstrap or any tipset via a stored certificate) x head-lookback {0,1,4} x proposal length {1,2,5,128} x clock {stale,fresh}, plus 300-epoch linear chains; all honest certificate histories (look-back {2,3,5}, initial {0,7}, 0..8 certificates, 0-2 tipsets each) with every instance's committee and the proposal of every instance (also those behind the store's latest certificate); distinct_nontrivial counts distinct (proposal length, descends) classes and committee queries")
 		chk.Assume("model EC backend (explicit block tree) and in-memory cert store; fake signing backend")
 		chk.Finish()
 	case "C19":
